@@ -2,6 +2,7 @@
 import Relic.Driver.C12
 import Relic.Driver.PE
 import Relic.Driver.E2E
+import Relic.Driver.Cms
 import Relic.Driver.C20
 import Relic.Driver.C15
 import Relic.Driver.C06
@@ -22,6 +23,7 @@ def dispatch (line : String) : String :=
   | "C12" :: rest => Relic.Driver.C12.handle rest
   | "PE" :: rest => Relic.Driver.PE.handle rest
   | "E2E" :: rest => Relic.Driver.E2E.handle rest
+  | "CMS" :: rest => Relic.Driver.Cms.handle rest
   | "C20" :: rest => Relic.Driver.C20.handle rest
   | "C15" :: rest => Relic.Driver.C15.handle rest
   | "C06" :: rest => Relic.Driver.C06.handle rest
